@@ -367,12 +367,14 @@ def no_peeking(an, rep):
     cg = CallGraph(core)
     called = {e for es in cg.edges.values() for e in es}
     called_by_derived = set()          # what the derive macro's output (the corpus crate) calls
-    for cr in an.corpus().crates:
-        for cb in cr.bodies.values():
-            for blk in cb.blocks:
-                t = blk["term"]
-                if t["k"] == "call":
-                    called_by_derived.add(mir.callee_info(t["callee"])["key"])
+    cprog = an.corpus()
+    for nm, tst in cprog.names():
+        if nm != "verif_corpus":
+            continue
+        for cb in cprog.crate(nm, tst).bodies.values():
+            for _bb, _t, info in mir.calls(cb):
+                called_by_derived.add(info["key"])
+    R.floor("library functions called by derived code", len([k for k in called_by_derived if k.startswith(("AdtDeserializer::", "AdtSerializer"))]), 6)
     callers = {}
     for d, es in cg.edges.items():
         for e in es:
@@ -643,7 +645,7 @@ def chunks_skipped(an, rep):
             if e[2].startswith("RangeInclusive<Idx>::new") and len(e[5]) >= 2:
                 hi = strip_refs(e[5][1])
                 if guards.rng(e[5][0]) == (0, 0) and isinstance(hi, tuple) and hi[0] == "arg" and (
-                        hi[2] == "stored_version" or (len(hi) > 3 and (hi[3] or {}).get("s") == "u8")):
+                        hi[2] == "stored_version" or (len(hi) > 3 and (hi[3] == "u8" or (isinstance(hi[3], dict) and hi[3].get("s") == "u8")))):
                     found = True
         if found:
             break
